@@ -188,9 +188,16 @@ def prune(d, keep=6):
     """Keep only the `keep` most recently used sub-directories of d (bounded cache)."""
     if not os.path.isdir(d):
         return
-    subs = [os.path.join(d, x) for x in os.listdir(d)]
-    subs = [x for x in subs if os.path.isdir(x)]
-    subs.sort(key=lambda p: os.path.getmtime(p), reverse=True)
+    def mtime(p):
+        try:
+            return os.path.getmtime(p)
+        except OSError:          # removed meanwhile by a concurrent build (threads of one check, or another check)
+            return 0.0
+    try:
+        subs = [os.path.join(d, x) for x in os.listdir(d)]
+    except OSError:
+        return
+    subs = sorted((x for x in subs if os.path.isdir(x)), key=mtime, reverse=True)
     for p in subs[keep:]:
         shutil.rmtree(p, ignore_errors=True)
 
